@@ -18,7 +18,7 @@ def _refused(core):
 
 
 @rigged
-def no_refused_decision(src, n=2, peer_views='abstract', steps=c02.STEPS, fsm_states=FC.FSM,
+def no_refused_decision(src, n=2, peer_views='abstract', steps=c02.BASE_STEPS, fsm_states=FC.FSM,
                         sync=FC.SYNC_CHOICES):
     """H08a: whatever a state decides from any situation is accepted by set_state; a refused decision parks the
     instance because the same decision is taken again at every evaluation"""
